@@ -31,7 +31,9 @@ class StreamSock:
             self.script.append(["E", e])
             raise OSError(e, "scripted")
         k = n if r < 0.3 else self.rng.randint(1, max(1, n))
-        self.script.append(["D", k])
+        # recorded for the socket model: "at most k bytes"; any k beyond what is left of the stream is equivalent
+        # to (left + 1), which keeps the unary nat literal small when a hostile header asks for 2**30 bytes
+        self.script.append(["D", min(k, len(self.stream) - self.pos + 1)])
         chunk = self.stream[self.pos:self.pos + min(k, n)]
         self.pos += len(chunk)
         return chunk
@@ -360,7 +362,7 @@ def raw_message(consts, typ, ser, flags, seq, dsize, asize, corr, body, tag=b"PY
 def gen_cases(ctx, consts):
     rng = ctx.rng
     cases = []
-    n_enc = ctx.n(900, 12000)
+    n_enc = ctx.n(900, 10000)
     valid_msgs = []
     for i in range(n_enc):
         hostile = rng.random() < 0.25
@@ -374,7 +376,7 @@ def gen_cases(ctx, consts):
         cases.append({"kind": "encode", "cfg": cfg, "msg": m})
         if probe["kind"] == "ok":
             valid_msgs.append((cfg["compression"], probe["data"]))
-    n_dec = ctx.n(1600, 20000)
+    n_dec = ctx.n(1600, 16000)
     for i in range(n_dec):
         r = rng.random()
         comp, base = rng.choice(valid_msgs)
